@@ -1090,9 +1090,14 @@ class AuthTktCookieHelper:
             if (now - timestamp) > self.reissue_time:
                 # See https://github.com/Pylons/pyramid/issues#issue/108
                 tokens = list(filter(None, tokens))
+                revoked = hasattr(request, '_authtkt_reissue_revoked')
                 headers = self.remember(
                     request, userid, max_age=self.max_age, tokens=tokens
                 )
+                if not revoked:
+                    # remember() revokes pending reissues; this call *is*
+                    # the reissue, so it must not revoke itself
+                    del request._authtkt_reissue_revoked
 
                 def reissue_authtkt(request, response):
                     if not hasattr(request, '_authtkt_reissue_revoked'):
@@ -1180,8 +1185,7 @@ class AuthTktCookieHelper:
             new_tokens.append(token)
         tokens = tuple(new_tokens)
 
-        if hasattr(request, '_authtkt_reissued'):
-            request._authtkt_reissue_revoked = True
+        request._authtkt_reissue_revoked = True
 
         ticket = self.AuthTicket(
             self.secret,
